@@ -38,7 +38,7 @@ func (p *Peer) runHostile(h HostileSpec) {
 		}
 		k := kind
 		if k == "mixed" {
-			k = simrt.Pick(r, []string{"oversize", "garbage", "valid", "valid", "valid", "truncate"})
+			k = simrt.Pick(r, []string{"oversize", "garbage", "valid", "valid", "valid", "truncate", "shortframe", "shortframe"})
 		}
 		if k == "oversize" && desync {
 			k = "valid" // the stream is already out of sync: a header would be read as body bytes
@@ -53,6 +53,19 @@ func (p *Peer) runHostile(h HostileSpec) {
 				return
 			}
 			simrt.Count("fault.hostile.garbage", 1)
+			desync = true
+		case "shortframe":
+			// a frame whose length prefix is smaller than the fixed fields of its message
+			// type, followed by the bytes a full message would have had
+			type sf struct{ id, fixed int }
+			m := simrt.Pick(r, []sf{{MsgPiece, 9}, {MsgPiece, 9}, {MsgHave, 5}, {MsgRequest, 13}, {MsgCancel, 13}, {MsgReject, 13}, {MsgPort, 3}, {MsgAllowedFast, 5}, {MsgExtended, 2}, {MsgSuggest, 5}})
+			l := 1 + r.Intn(m.fixed-1)
+			b := []byte{0, 0, 0, byte(l), byte(m.id)}
+			b = append(b, r.Bytes(r.Range(0, 40))...)
+			if p.WriteRaw(b) != nil {
+				return
+			}
+			simrt.Count("fault.hostile.shortframe", 1)
 			desync = true
 		case "truncate":
 			b := p.randomValid()
